@@ -317,6 +317,7 @@ def run_case(R, r):
                     res = "ok"
                 except Exception as ex:
                     res = "err " + L.exc_name(ex)
+                hc.note_allocs()          # referents the update created are live objects from here on
                 after = [L.image(b) for b in hc.bufs]
                 hc.ops.append(f"upd h0 {L.pstr(path)} (obj inst)")
                 hc.exp.append(f"{res} mems {mems(hc.bufs)}")
